@@ -20,10 +20,50 @@ func init() {
 
 func isEngineSend(call ssa.CallInstruction) bool {
 	cc := call.Common()
-	if cc.IsInvoke() || cc.StaticCallee() != nil {
+	if cc.IsInvoke() {
 		return false
 	}
+	if w := cc.StaticCallee(); w != nil {
+		return engineSendWrapper(w) >= 0
+	}
 	return descCell(cc.Value) == "p:e.send"
+}
+
+// engineSendWrapper recognises a method of the engine that does nothing but
+// forward one Request parameter to the send function as (req.MsgID,
+// req.SeqNo, req.Input) on every path; it returns the index of that parameter
+// (a helper extracted from the retry loop is the same send), or -1.
+func engineSendWrapper(w *ssa.Function) int {
+	if w == nil || len(w.Blocks) == 0 || w.Pkg == nil || !strings.HasSuffix(w.Pkg.Pkg.Path(), "/rpc") {
+		return -1
+	}
+	var direct []ssa.CallInstruction
+	for _, call := range engine.Calls(w) {
+		cc := call.Common()
+		if !cc.IsInvoke() && cc.StaticCallee() == nil && descCell(cc.Value) == "p:e.send" {
+			direct = append(direct, call)
+		}
+	}
+	if len(direct) != 1 {
+		return -1
+	}
+	a := direct[0].Common().Args
+	if len(a) != 4 {
+		return -1
+	}
+	for i, p := range w.Params {
+		n := "p:" + p.Name()
+		if descCell(a[1]) == n+".MsgID" && descCell(a[2]) == n+".SeqNo" && descCell(a[3]) == n+".Input" {
+			// on every path: no exit of w avoids the send
+			for _, r := range exits(w) {
+				if (engine.PathQuery{Fn: w, Barrier: func(in ssa.Instruction) bool { return in == direct[0].(ssa.Instruction) }}).Reaches(r) {
+					return -1
+				}
+			}
+			return i
+		}
+	}
+	return -1
 }
 
 func c25(c *engine.Ctx) {
@@ -52,6 +92,15 @@ func c25(c *engine.Ctx) {
 		got := ""
 		if len(a) == 4 {
 			got = descCell(a[1]) + ", " + descCell(a[2]) + ", " + descCell(a[3])
+		}
+		if w := s.Common().StaticCallee(); w != nil {
+			// a forwarding helper: it must be handed the request itself
+			i := engineSendWrapper(w)
+			all := engine.Args(s.Common())
+			ok = i >= 0 && i < len(all) && descCell(all[i]) == "p:req"
+			if i >= 0 && i < len(all) {
+				got = "via " + w.Name() + ": " + descCell(all[i])
+			}
 		}
 		c.Check(ok, "C25.R1", engine.FuncID(f)+"/send#"+ordinal(f, s), s.Pos(), "send must carry (req.MsgID, req.SeqNo, req.Input) of the request being retried; carries (%s)", got)
 	}
